@@ -148,6 +148,27 @@ pub proof fn lemma_update_counts(len: nat, b: nat, m: nat, start: int, c1: nat, 
     }
 }
 
+/// the three-way choice of `end` in `update` is start + 128 * (number of blocks before the last one of the rest)
+pub proof fn lemma_update_end(len: int, start: int, end: int)
+    requires
+        0 <= start < len,
+        end == (if len - start > 128 && (len - start) % 128 == 0 {
+            len - 128
+        } else if len - start > 128 {
+            len - (len - start) % 128
+        } else {
+            start
+        }),
+    ensures
+        end == start + 128 * blocks_before_last((len - start) as nat),
+        start <= end < len,
+        (end - start) % 128 == 0,
+{
+    let r = len - start;
+    assert(r == 128 * (r / 128) + r % 128);
+    assert(r - 1 == 128 * ((r - 1) / 128) + (r - 1) % 128);
+}
+
 pub proof fn lemma_div_add_multiple(x: int, q: int)
     requires
         x >= 0,
